@@ -49,10 +49,22 @@ func runInstance(ld *Loaded, sol *Solver, inst Instance, opt runOpts) (res InstR
 	ex.stepLimit = opt.stepLimit
 	h := &runHooks{aborted: map[string]int{}, reached: map[string]bool{}, kfOpen: opt.kfOpen, concrete: opt.concrete}
 	ex.hooks = h
-	fn := ld.tensor.Func(inst.Harness)
-	if fn == nil {
-		res.Err = "harness not found: " + inst.Harness
-		return
+	var entry func(ex *Exec)
+	if strings.HasPrefix(inst.Harness, "@kernel:") {
+		kn := strings.TrimPrefix(inst.Harness, "@kernel:")
+		kfn := ld.pkgs["gorgonia.org/tensor/internal/execution"].Func(kn)
+		if kfn == nil {
+			res.Err = "kernel not found: " + kn
+			return
+		}
+		entry = func(ex *Exec) { runKernel(ex, kfn) }
+	} else {
+		fn := ld.tensor.Func(inst.Harness)
+		if fn == nil {
+			res.Err = "harness not found: " + inst.Harness
+			return
+		}
+		entry = func(ex *Exec) { ex.callFn(nil, fn, nil, nil) }
 	}
 	q0, t0, tm0 := sol.Queries, sol.Trivial, sol.Time
 	work := [][]decision{nil}
@@ -72,7 +84,7 @@ func runInstance(ld *Loaded, sol *Solver, inst Instance, opt runOpts) (res InstR
 		h.pathNo = h.paths
 		h.paths++
 		ex.resetPath(prefix)
-		runPath(ex, fn)
+		runPath(ex, entry)
 		work = append(work, ex.path.forks...)
 		for i, n := range ex.path.ndNames {
 			if !ndSeen[n] {
@@ -100,7 +112,7 @@ func runInstance(ld *Loaded, sol *Solver, inst Instance, opt runOpts) (res InstR
 	return
 }
 
-func runPath(ex *Exec, fn interface{}) {
+func runPath(ex *Exec, entry func(ex *Exec)) {
 	h := ex.hooks
 	defer func() {
 		r := recover()
@@ -140,7 +152,7 @@ func runPath(ex *Exec, fn interface{}) {
 			h.aborted[msg]++
 		}
 	}()
-	ex.callFn(nil, ex.ld.tensor.Func(fnName(fn)), nil, nil)
+	entry(ex)
 }
 
 func fnName(fn interface{}) string {
